@@ -1,36 +1,44 @@
 #!/bin/bash
-# usage: confirm_seed.sh <ID> <a|b>
-# Confirms a sub-agent's change in its scratch worktree /tmp/wt-<ID> against /repo's current HEAD:
-#  builds, existing suite unchanged, demo fails with the change and passes without. Writes /verif/seeded/<ID>-<v>/.
+# usage: confirm_seed.sh <ID> <a|b> [worktree] [name]
+# Confirms a sub-agent's change in its scratch worktree against /repo's current HEAD:
+#  applies, builds, existing suite unchanged, demo fails with the change and passes without.
+#  Writes /verif/seeded/<name>/ (patch.diff, demo, NOTES.md, meta.json).
 ID=$1; V=$2
-WT=/tmp/wt-$ID; SRC=$WT/_out/$V; OUT=/verif/seeded/$ID-$V
+WT=${3:-/tmp/wt-$ID}; NAME=${4:-$ID-$V}
+SRC=$WT/_out/$V; OUT=/verif/seeded/$NAME
 export GOFLAGS=-mod=mod GOPROXY=off GOSUMDB=off GOTOOLCHAIN=local
 HEAD=$(git -C /repo rev-parse HEAD)
 cd $WT || exit 2
 git reset -q --hard; git checkout -q --detach $HEAD || exit 2
-DEMO=$(ls $SRC/*_test.go $SRC/*.go 2>/dev/null | head -1)
-[ -f "$SRC/patch.diff" ] && [ -n "$DEMO" ] || { echo "$ID-$V: missing files"; exit 2; }
+DEMO=$(ls $SRC/*_test.go 2>/dev/null | head -1)
+[ -f "$SRC/patch.diff" ] && [ -n "$DEMO" ] || { echo "$NAME: missing files"; exit 2; }
 PKG=$(grep -m1 '^package ' $DEMO | awk '{print $2}' | sed 's/_test$//')
 DIR=$PKG; [ "$PKG" = main ] && DIR=.
 TESTS=$(grep -o '^func Test[A-Za-z0-9_]*' $DEMO | sed 's/func //' | paste -sd'|')
-mkdir -p $OUT; cp $SRC/patch.diff $OUT/; cp $DEMO $OUT/; cp $SRC/NOTES.md $OUT/ 2>/dev/null
+mkdir -p $OUT; cp $DEMO $OUT/; cp $SRC/NOTES.md $OUT/ 2>/dev/null
 APPLY=ok; git apply --check $SRC/patch.diff 2>$OUT/apply.err || APPLY=fail
-if [ $APPLY = fail ]; then git apply --3way $SRC/patch.diff 2>>$OUT/apply.err && APPLY=3way; fi
-if [ $APPLY = fail ]; then echo "$ID-$V: patch does not apply to HEAD"; echo "{\"id\":\"$ID-$V\",\"applies\":false}" > $OUT/meta.json; git reset -q --hard; exit 1; fi
-[ $APPLY = ok ] && git apply $SRC/patch.diff
+if [ $APPLY = fail ]; then echo "$NAME: patch does not apply to HEAD"; echo "{\"id\":\"$NAME\",\"property\":\"$ID\",\"applies\":false}" > $OUT/meta.json; git reset -q --hard; exit 1; fi
+rm -f $OUT/apply.err
+git apply $SRC/patch.diff
 git diff > $OUT/patch.diff
 BUILD=ok; go build ./... 2>$OUT/build.err || BUILD=fail
+[ $BUILD = ok ] && rm -f $OUT/build.err
 SUITE=$(flock /tmp/pike-suite.lock go test -vet=off -count=1 ./... 2>&1 | grep -E '^(ok|FAIL|---)' | grep -E '^FAIL|^--- FAIL' | sort | tr '\n' ';')
 cp $DEMO $DIR/
 WITH=$(go test -vet=off -count=1 -run "^($TESTS)\$" ./$DIR/ 2>&1 | tail -3 | tr '\n' ' ')
 git reset -q --hard
+cp $DEMO $DIR/
 WITHOUT=$(go test -vet=off -count=1 -run "^($TESTS)\$" ./$DIR/ 2>&1 | tail -3 | tr '\n' ' ')
 rm -f $DIR/$(basename $DEMO)
-python3 - "$ID" "$V" "$APPLY" "$BUILD" "$SUITE" "$WITH" "$WITHOUT" "$HEAD" "$DIR" "$TESTS" <<'PY' > $OUT/meta.json
+python3 - "$NAME" "$ID" "$APPLY" "$BUILD" "$SUITE" "$WITH" "$WITHOUT" "$HEAD" "$DIR" "$TESTS" <<'PY' > $OUT/meta.json
 import json,sys
-id,v,apply,build,suite,w,wo,head,d,tests=sys.argv[1:]
-base="--- FAIL: TestEtcdClient;--- FAIL: TestNewMongoStore;--- FAIL: TestUpstreamServer;FAIL;FAIL;FAIL;FAIL\tgithub.com/vicanso/pike/config;FAIL\tgithub.com/vicanso/pike/store;FAIL\tgithub.com/vicanso/pike/upstream"
-fails=sorted(set(x.split()[2] if x.startswith('--- FAIL') else '' for x in suite.split(';'))-{''})
-print(json.dumps({"id":id+"-"+v,"property":id,"repo_head":head,"applies":apply,"builds":build=="ok","suite_failing_tests":fails,"suite_same_as_baseline":fails==["TestEtcdClient","TestNewMongoStore","TestUpstreamServer"],"demo_dir":d,"demo_tests":tests,"demo_with_change":w,"demo_without_change":wo,"demo_fails_with":("FAIL" in w),"demo_passes_without":(wo.strip().startswith("ok") or " ok " in " "+wo)},indent=1))
+name,id,apply,build,suite,w,wo,head,d,tests=sys.argv[1:]
+fails=sorted(set(x.split()[2] for x in suite.split(';') if x.startswith('--- FAIL')))
+pk=sorted(set(x.split('\t')[1] for x in suite.split(';') if x.startswith('FAIL\t')))
+known={"TestEtcdClient","TestNewMongoStore","TestUpstreamServer"}
+# TestEtcdClient panics and aborts the config test binary; depending on timing it is printed as --- FAIL or only as a package FAIL
+ok = set(fails)<=known and set(pk)==set(["github.com/vicanso/pike/config","github.com/vicanso/pike/store","github.com/vicanso/pike/upstream"])
+print(json.dumps({"id":name,"property":id,"repo_head":head,"applies":apply,"builds":build=="ok","suite_failing_tests":fails,"suite_failing_packages":pk,"suite_same_as_baseline":ok,"demo_dir":d,"demo_tests":tests,"demo_with_change":w,"demo_without_change":wo,"demo_fails_with":("FAIL" in w),"demo_passes_without":(" ok " in " "+wo+" " or wo.strip().startswith("ok"))},indent=1))
 PY
-cat $OUT/meta.json | tr '\n' ' '; echo
+python3 -c "
+import json;m=json.load(open('$OUT/meta.json'));print(m['id'],'applies',m['applies'],'builds',m['builds'],'suite',m['suite_same_as_baseline'],'with',m['demo_fails_with'],'without',m['demo_passes_without'])"
